@@ -440,6 +440,10 @@ func (e *ctlEnv) nodeIE(node string) *ie.IE {
 	switch {
 	case strings.HasPrefix(node, "4:p"):
 		k, _ := strconv.Atoi(node[3:])
+		if k == 7 {
+			// a node whose address is not reachable from the UPF's (loopback) socket: sendto fails for it
+			return ie.NewNodeID(unreachableIP, "", "")
+		}
 		return ie.NewNodeID(e.ip(k), "", "")
 	case strings.HasPrefix(node, "6:"):
 		return ie.NewNodeID("", node[2:], "")
@@ -821,7 +825,11 @@ func (e *ctlEnv) renderMsg(b []byte) string {
 }
 
 // abstractAddrs: 127.0.<net>.<k>:8805 -> p<k>, 127.0.<net>.<k> -> 4:p<k> (peer names of the abstract world)
+const unreachableIP = "203.0.113.7" // TEST-NET-3
+
 func (e *ctlEnv) abstractAddrs(s string) string {
+	s = strings.ReplaceAll(s, unreachableIP+":8805", "p7")
+	s = strings.ReplaceAll(s, unreachableIP, "4:p7")
 	pre := fmt.Sprintf("127.0.%d.", e.net)
 	var b strings.Builder
 	for {
@@ -855,7 +863,7 @@ func (e *ctlEnv) abstractAddrs(s string) string {
 func resortTrans(d string) string {
 	fs := strings.Fields(d)
 	for i, f := range fs {
-		for _, k := range []string{"rx=", "tx=", "rxu="} {
+		for _, k := range []string{"rx=", "tx=", "rxu=", "nodes="} {
 			if strings.HasPrefix(f, k) && f != k+"_" {
 				xs := strings.Split(f[len(k):], ",")
 				sort.Strings(xs)
@@ -917,7 +925,9 @@ func (e *ctlEnv) exec(ev *event) (sends map[int][]string, rawSends map[int][][]b
 		if ev.tk == "rx" {
 			tt = pfcp.RX
 		}
-		if ev.peer > 10 && ev.peer < fencePeer {
+		if ev.peer == 7 {
+			e.srv.NotifyTransTimeout(tt, fmt.Sprintf("%s:8805-%d", unreachableIP, ev.seq))
+		} else if ev.peer > 10 && ev.peer < fencePeer {
 			e.srv.NotifyTransTimeout(tt, fmt.Sprintf("%s:8806-%d", e.ip(ev.peer-10), ev.seq))
 		} else {
 			e.srv.NotifyTransTimeout(tt, fmt.Sprintf("%s:8805-%d", e.ip(ev.peer), ev.seq))
